@@ -178,12 +178,32 @@ def _build(ch):
             "names": [n for n in (s0, s1, p0, p1, opid, tag, pname, ename) if n]}
 
 
+def _graphs(tier):
+    """(d) every small reference graph: 2 schemas with any of the 4 possible edges, 3 schemas with <=2 (thorough <=3) edges,
+    every edge kind (property, items, union member, additionalProperties, allOf parent), forward and reversed declaration."""
+    from specmc.refmodels import graphs as G
+    for n, m in ((2, 4), (3, 2 if tier == "quick" else 3)):
+        for label, edges, order in G.graphs(n, m):
+            kinds = "+".join(sorted({kd for _i, _j, kd in edges})) or "none"
+            cyc = "cyclic" if _has_cycle(n, edges) else "acyclic"
+            yield {"labels": ["graph=" + label], "payload": {"doc": gen.base_doc(G.components(n, edges, order), paths=G.paths(n)), "options": {}, "meta": "none",
+                                                             "key": f"graph/{kinds}/{cyc}"}}
+
+
+def _has_cycle(n, edges):
+    adj = {i: {j for a, j, _k in edges if a == i} for i in range(n)}
+    def reach(a, b, seen):
+        return any(x == b or (x not in seen and reach(x, b, seen | {x})) for x in adj[a])
+    return any(reach(i, i, {i}) for i in range(n))
+
+
 def cases(tier):
     global NAMES
     NAMES = NAMES_QUICK if tier == "quick" else NAMES_FULL
     yield from _matrix()
     yield from _pairs()
     yield from _default_pairs()
+    yield from _graphs(tier)
     bound = 2 if tier == "quick" else 3
     limit = 30000 if tier == "quick" else 400000
     for labels, payload, _d in explore(_build, bound=bound, limit=limit):
